@@ -376,7 +376,7 @@ pub fn other_schema_gen_config(cfg: &SchemaGenConfig) -> SchemaGenConfig {
     use nitrogql_config_file::ScalarTypeConfig as C;
     let mut o = cfg.clone();
     o.allow_undefined_as_optional_input = !cfg.allow_undefined_as_optional_input;
-    o.emit_schema_runtime = !cfg.emit_schema_runtime;
+    // (emitSchemaRuntime decides the name of the schema output; it stays, so that the same files are written again)
     for v in o.scalar_types.values_mut() {
         *v = C::Single("symbol".into());
     }
